@@ -113,7 +113,7 @@ func diagClass(m *mismatch) string {
 		}
 		return reNum.ReplaceAllString(d, "N")
 	case "stack":
-		return m.VM
+		return "" // how many items are left over depends on the enclosing constructs
 	case "type":
 		return m.VM
 	case "meta":
@@ -122,17 +122,51 @@ func diagClass(m *mismatch) string {
 	return ""
 }
 
+// classOf maps a compound production to its class token.
+func classOf(kind string) string {
+	if i := strings.Index(kind, "["); i >= 0 {
+		kind = kind[:i]
+	}
+	switch {
+	case strings.HasPrefix(kind, "for") || strings.HasPrefix(kind, "range"):
+		return "~loop"
+	case strings.HasPrefix(kind, "switch"):
+		return "~switch"
+	case kind == "if" || kind == "if-else" || kind == "else" || kind == "else-if":
+		return "~if"
+	}
+	return kind
+}
+
+func elemMatch(core, e string) bool {
+	if core == e {
+		return true
+	}
+	if strings.HasPrefix(core, "~") {
+		cs, es := "", ""
+		c, x := core, e
+		if i := strings.Index(c, "["); i >= 0 {
+			c, cs = c[:i], c[i:]
+		}
+		if i := strings.Index(x, "["); i >= 0 {
+			x, es = x[:i], x[i:]
+		}
+		return c == classOf(x) && cs == es
+	}
+	return false
+}
+
 // embeds: the chain x (kinds joined by ">") occurs in the chain y with the same
 // last element and the other elements in order, possibly with more nesting
 // levels in between or around.
 func embeds(x, y string) bool {
 	xs, ys := strings.Split(x, ">"), strings.Split(y, ">")
-	if xs[len(xs)-1] != ys[len(ys)-1] {
+	if !elemMatch(xs[len(xs)-1], ys[len(ys)-1]) {
 		return false
 	}
 	i := 0
 	for _, e := range ys {
-		if i < len(xs) && e == xs[i] {
+		if i < len(xs) && elemMatch(xs[i], e) {
 			i++
 		}
 	}
@@ -203,9 +237,6 @@ func (ck *checker) runUnits(b *batch, units []*unit) {
 	ck.nCalls.Add(ev.Calls)
 	ck.nBig.Add(ev.Big)
 	for k, n := range ev.Outcome {
-		for i := 0; i < n; i++ {
-			_ = i
-		}
 		ck.outcomeN(k, n)
 	}
 	ck.mu.Lock()
@@ -348,8 +379,13 @@ func (ck *checker) failing(b *batch, u *unit, m *mismatch) {
 		}
 		key := fmt.Sprintf("%s/%s:%s", s.Family, s.Cause, shortHash(s.Tmpl))
 		f.key = key
-		atomic.AddInt64(&ck.nViol, 1)
-		ck.r.Violation(key, violDetail{Kind: "shape", Feature: s.Family + "/" + s.Cause, Mismatch: *mm, Source: s.Src, Prog: sp, FnName: sp.Fns[mm.Fn].Name, ShapeTag: s.Tag})
+		if ck.r.Violation(key, violDetail{Kind: "shape", Feature: s.Family + "/" + s.Cause, Mismatch: *mm, Source: s.Src, Prog: sp, FnName: sp.Fns[mm.Fn].Name, ShapeTag: s.Tag}) {
+			atomic.AddInt64(&ck.nViol, 1)
+		} else {
+			ck.mu.Lock()
+			ck.famCount[s.Family]-- // a known finding does not use up the family's report quota
+			ck.mu.Unlock()
+		}
 		return
 	}
 	// grammar / expression function: suppress what an already reported minimal program explains
@@ -393,9 +429,10 @@ func (ck *checker) failing(b *batch, u *unit, m *mismatch) {
 	}
 	ck.findings = append(ck.findings, &finding{sig: sig, paths: corePaths, key: key})
 	ck.mu.Unlock()
-	atomic.AddInt64(&ck.nViol, 1)
 	minM.Fn = 0
-	ck.r.Violation(key, violDetail{Kind: u.kind, Feature: feat, Mismatch: minM, Source: norm, Original: u.fn.Src, Prog: one, FnName: minFn.Name, Paths: minFn.Paths, Core: corePaths})
+	if ck.r.Violation(key, violDetail{Kind: u.kind, Feature: feat, Mismatch: minM, Source: norm, Original: u.fn.Src, Prog: one, FnName: minFn.Name, Paths: minFn.Paths, Core: corePaths}) {
+		atomic.AddInt64(&ck.nViol, 1)
+	}
 }
 
 // minimise shrinks the body of a failing grammar function while the same kind
@@ -438,63 +475,109 @@ func (ck *checker) minimise(b *batch, u *unit, m *mismatch) (Fn, mismatch, []str
 			break
 		}
 	}
-	// Which plain statements of the minimal body only make the failure visible?
-	// One that can be replaced by two other plain atoms without curing the
-	// failure is not part of the cause: it is left out of the paths used to
-	// recognise later failing programs as the same cause.
+	// Which parts of the minimal body only make the failure visible? A plain
+	// statement that can be replaced by two other plain atoms without curing the
+	// failure is left out of the paths used to recognise later failing programs
+	// as the same cause; a compound statement that can be replaced by two other
+	// productions of its class (loop / switch / if) is generalised to the class.
 	var plain []*atom
 	for _, a := range u.fr.atoms {
 		if a.needs == "" && !a.ends {
 			plain = append(plain, a)
 		}
 	}
-	drop := map[string]int{}
-	var visit func(list []*node, rebuild func([]*node) []*node, path string)
-	visit = func(list []*node, rebuild func([]*node) []*node, path string) {
+	type pre struct {
+		n          *node
+		depth, end int // end: index after the last node of the subtree
+	}
+	var order []pre
+	var walk func(list []*node, depth int)
+	walk = func(list []*node, depth int) {
+		for _, s := range list {
+			k := len(order)
+			order = append(order, pre{n: s, depth: depth})
+			walk(s.body, depth+1)
+			order[k].end = len(order)
+		}
+	}
+	walk(best, 0)
+	elems := make([][]string, len(bestFn.Paths))
+	for i, p := range bestFn.Paths {
+		elems[i] = strings.Split(p, ">")
+	}
+	dropped := make([]bool, len(order))
+	// replace returns best with node k replaced by r
+	var replace func(list []*node, target *node, r *node) []*node
+	replace = func(list []*node, target *node, r *node) []*node {
+		out := make([]*node, len(list))
 		for i, s := range list {
+			switch {
+			case s == target:
+				out[i] = r
+			case s.c != nil:
+				ns := *s
+				ns.body = replace(s.body, target, r)
+				out[i] = &ns
+			default:
+				out[i] = s
+			}
+		}
+		return out
+	}
+	if len(order) == len(elems) {
+		for k, pn := range order {
+			if ck.r.Expired() {
+				break
+			}
+			s := pn.n
+			tried, still := 0, 0
 			if s.a != nil {
-				if s.a.needs != "" || s.a.ends || ck.r.Expired() {
+				if s.a.needs != "" || s.a.ends {
 					continue
 				}
-				tried, still := 0, 0
 				for _, alt := range plain {
 					if alt == s.a || tried == 2 {
 						continue
 					}
 					tried++
-					nl := append([]*node{}, list...)
-					nl[i] = &node{a: alt}
-					if _, _, ok := try(rebuild(nl)); ok {
+					if _, _, ok := try(replace(best, s, &node{a: alt})); ok {
 						still++
 					}
 				}
-				if tried == 2 && still == 2 {
-					drop[path+s.a.kind]++
-				}
+				dropped[k] = tried == 2 && still == 2
 				continue
 			}
-			p := path + s.c.kind
-			if s.c.useCond {
-				p += fmt.Sprintf("[c%d]", s.cond)
-			}
-			i, s := i, s
-			visit(s.body, func(nb []*node) []*node {
+			cl := classOf(s.c.kind)
+			for _, alt := range u.fr.comps {
+				if alt == s.c || tried == 2 || classOf(alt.kind) != cl || (cl == "~if" && alt.useCond != s.c.useCond) {
+					continue
+				}
+				tried++
 				ns := *s
-				ns.body = nb
-				nl := append([]*node{}, list...)
-				nl[i] = &ns
-				return rebuild(nl)
-			}, p+">")
+				ns.c = alt
+				if _, _, ok := try(replace(best, s, &ns)); ok {
+					still++
+				}
+			}
+			if tried == 2 && still == 2 {
+				for j := k; j < pn.end; j++ {
+					if pn.depth < len(elems[j]) {
+						e := elems[j][pn.depth]
+						suffix := ""
+						if i := strings.Index(e, "["); i >= 0 {
+							suffix = e[i:]
+						}
+						elems[j][pn.depth] = cl + suffix
+					}
+				}
+			}
 		}
 	}
-	visit(best, func(l []*node) []*node { return l }, "")
 	var core []string
-	for _, p := range bestFn.Paths {
-		if drop[p] > 0 {
-			drop[p]--
-			continue
+	for i := range elems {
+		if !dropped[i] {
+			core = append(core, strings.Join(elems[i], ">"))
 		}
-		core = append(core, p)
 	}
 	if len(core) == 0 {
 		core = bestFn.Paths
@@ -746,12 +829,12 @@ func TestCheck(t *testing.T) {
 	}
 	ck.report()
 	outMu.Lock()
+	callsBy := map[string]int{}
 	for k, n := range outAgg {
-		for i := 0; i < 1; i++ {
-			r.Outcome(k)
-		}
-		stats["n:"+k] = n
+		r.Outcome(k)
+		callsBy[k] = n
 	}
+	stats["calls_by_outcome"] = callsBy
 	outMu.Unlock()
 	cov := map[string]any{
 		"states":                        int(ck.nFns.Get()),
@@ -783,6 +866,7 @@ func TestCheck(t *testing.T) {
 		cov["harness_error_first"] = trunc(ck.harnessErrs[0], 600)
 		cov["exhaustive"] = false
 	}
+	vk.CleanScratch()
 	r.Finish(cov, []string{
 		"the reference is the pinned Go 1.25 toolchain (go build, default flags) running the same source file plus a generated driver",
 		"a function is entered at its DebugInfo range start after _initialize, arguments pushed first-on-top above a sentinel item; FAULT <=> Go panic",
